@@ -127,7 +127,7 @@ def run_case(case, ctx):
         st = gen.make_state(kind, am, ph)
     sp = st.generate_hilbert_space()
     units = nh + (na if kind == "mixed" else 0)
-    tol = TAU * 2 * units + 1e-10
+    tol = 2 * gen.tau_sp(n, am, ph) + 1e-10
     tags = {"state": kind}
     wit = {"am": gen.small_params(am), "ph": gen.small_params(ph), "bases": blist}
     rho_n = R.as_rho(kd, dense) / Zr
